@@ -116,6 +116,7 @@ def run(ck, F, E):
 
     # ---- (5) edit path
     common.edit_path_rules(ck, F, E, P)
+    line_number_parser(ck, F)
 
     # ---- (6) LIST prints list()
     mp = get_fn(ck, F, "Interpreter::maybe_process_command")
@@ -129,6 +130,31 @@ def run(ck, F, E):
             ok = has_list and bool(ext)
         ck.require(ok, "C04:LIST:prints-list", "LIST", "the LIST arm extends Interpreter.output with Program::list()",
                    "the LIST command no longer prints Program::list()", mp.span)
+
+
+def line_number_parser(ck, F):
+    """parse_line_number returns None only when there is no leading digit run or u64 parsing fails (overflow)."""
+    from lib import controlling_switches, aggregates
+    b = get_fn(ck, F, "line_number_parser::parse_line_number")
+    if b is None:
+        return
+    nones = [(bb, sp) for bb, i, pl, rv, sp in aggregates(b, "core::option::Option", "None") if pl["local"] == 0 and not pl["proj"]]
+    ck.floor("C04.None returns of parse_line_number", len(nones), 2)
+    bad = []
+    for (bb, sp) in nones:
+        for (sw, subj, names) in controlling_switches(b, bb):
+            txt = show(subj)
+            ok = ("is_ascii_digit" in txt or "is_ascii_whitespace" in txt or "parse(" in txt or "parse" in txt and "Result" in txt or
+                  (names and set(names.values()) <= {"None", "Some", "Ok", "Err"}))
+            if not ok:
+                bad.append(txt[:100])
+    ck.require(not bad, "C04:PARSE:none-only-for-stated-reasons", "line-number prefix",
+               "parse_line_number gives up only on: no leading digits, or str::parse::<u64> failing",
+               "parse_line_number can also return None depending on %s: some spellings of a valid line number (leading zeros, "
+               "long digit runs) are no longer recognised, so entering them neither replaces nor deletes the line" % bad, b.span)
+    ok = any(c.callee.endswith("<impl str>::parse") and c.gargs and c.gargs[0] == "u64" for c in b.calls())
+    ck.require(ok, "C04:PARSE:u64", "line-number prefix", "the digit run is converted with str::parse::<u64>",
+               "parse_line_number no longer converts with parse::<u64>", b.span, nontrivial=False)
 
 
 def walk_places(e, acc=None):
